@@ -103,6 +103,7 @@ type tmpl struct {
 	stateOp  bool                                 // successful execution changes open or lock state
 	expect   []sts                                // acceptable statuses per operation (filled by atExec/predict)
 	data     map[string]any
+	illegal  *illegalInfo // the operation list contains an operation NFSv4.1 does not have (see illegalop.go)
 }
 
 type fhRec struct {
